@@ -35,7 +35,7 @@ ASSUMPTIONS = [
     "`extensions` is compared as a set (FORD unions it with fpp_extensions)",
     "preprocess stays false (the preprocessor self-test is not part of the configuration semantics)",
 ]
-SKIP = {"relative", "directory", "creation_date", "preprocess", "preprocessor", "favicon", "parallel"}
+SKIP = {"relative", "directory", "creation_date", "preprocess", "preprocessor", "parallel"}
 STRS = ["plain", "two words", "with: colon", "a = b", "x=y", "UPPER lower", "trailing#hash", "quote's", 'say "hi"',
         "100%", "back\\slash", "<b>html</b>", "[[link]]", "a, b", "end"]
 PATHS = ["./sub", "sub/dir", "../up", "./a/../b", "deep/er/path", "name with blank"]
@@ -97,6 +97,9 @@ def gen_value(ch, name, kind):
             return ch.choice(["utf-8", "latin-1"])
         return ch.choice(STRS)
     if kind == "path":
+        if name == "favicon":
+            # (the built-in default is spelled favicon.png too: a project's own file of that name is still the project's)
+            return ch.choice(["favicon.png", "./favicon.png", "images/icon.png", "../shared/icon.png"])
         return ch.choice(PATHS)
     if kind == "liststr":
         if name == "display":
@@ -165,7 +168,7 @@ def md_lines(name, kind, v):
         return [f"{name}: {items[0]}"] + [f"    {x}" for x in items[1:]]
 
 
-def render(fmt, options, kinds, extra_lines=()):
+def render(fmt, options, kinds, extra_lines=(), override=None):
     """-> (files, cli dict)"""
     body = "Project body.\n"
     if fmt == "md":
@@ -181,6 +184,22 @@ def render(fmt, options, kinds, extra_lines=()):
             lines.append(f"{k} = {toml_value(kinds[k], v)}")
         lines += list(extra_lines)
         return {"project.md": body, "fpm.toml": "\n".join(lines) + "\n"}, {}
+    if fmt in ("md+config", "toml+config"):
+        # half of the options in the file, the other half through --config
+        keys = list(options)
+        in_file = {k: options[k] for k in keys[0::2]}
+        files, _ = render(fmt.split("+")[0], in_file, kinds, extra_lines)
+        parts = [f"{k} = {toml_value(kinds[k], options[k])}" for k in keys[1::2]]
+        return files, ({"config": ";".join(parts)} if parts else {})
+    if fmt in ("md>config", "toml>config"):
+        # the file gives another value for one option; --config gives the value meant
+        ov = override or {}
+        in_file = dict(options)
+        if ov.get("key") in in_file:
+            in_file[ov["key"]] = ov["file_value"]
+        files, _ = render(fmt.split(">")[0], in_file, kinds, extra_lines)
+        parts = [f"{k} = {toml_value(kinds[k], options[k])}" for k in options if k == ov.get("key")]
+        return files, ({"config": ";".join(parts)} if parts else {})
     parts = ["preprocess = false"] + [f"{k} = {toml_value(kinds[k], v)}" for k, v in options.items()] + list(extra_lines)
     return {"project.md": body}, {"config": ";".join(parts)}
 
@@ -234,6 +253,10 @@ def gen_case(ch: Chooser, excl=()):
     kinds = schema()
     names = sorted(kinds)
     chosen = ch.shuffle(names)[: ch.count(1, 8)]
+    if ch.bool(1, 10):
+        chosen = list(dict.fromkeys(chosen + ["favicon"]))
+    if ch.bool(1, 8):
+        chosen = list(dict.fromkeys(chosen + ["exclude_dir", "output_dir"]))     # (derived: output_dir is appended to exclude_dir)
     options = {}
     for n in chosen:
         options[n] = gen_value(ch, n, kinds[n])
@@ -272,8 +295,26 @@ def gen_case(ch: Chooser, excl=()):
         if "output_dir" not in options:
             pass
     formats = ["md", "toml"] + ([] if "config_format" in excl else ["config"])
+    override = None
+    if "config_format" not in excl and options and spec is None:
+        base = ch.choice(["md", "toml"])
+        formats.append(base + "+config")
+        key = ch.choice(sorted(options))
+        if "exclude_dir" in options and "output_dir" in options and ch.bool(2, 3):
+            key = "output_dir"          # (the output directory is also appended to exclude_dir)
+        alt = gen_value(ch, key, kinds[key])
+        if key == "output_dir":
+            alt = "./altout"
+        if key == "fixed_extensions" and "extensions" in options:
+            alt = [x for x in alt if x not in options["extensions"]] or ["fxd"]
+        if key == "extensions" and "fixed_extensions" in options:
+            alt = [x for x in alt if x not in options["fixed_extensions"]] or ["f95"]
+        if key in ("extra_mods", "external") and "extra_mods" in options and "external" in options:
+            alt = options[key]          # (FORD rejects a name present in both tables)
+        override = {"key": key, "file_value": alt}
+        formats.append(base + ">config")
     tkinds = sorted({kinds[n] for n in options})
-    return {"options": options, "cli": cli, "special": spec, "cwd": cwd, "formats": formats,
+    return {"options": options, "cli": cli, "special": spec, "cwd": cwd, "formats": formats, "override": override,
             "classes": ["kind:" + k for k in tkinds] + (["special:" + spec["kind"]] if spec else []) + (["cli"] if cli else []),
             "nontrivial": len(options) >= 3 and len(tkinds) >= 2}
 
@@ -296,7 +337,7 @@ def check(case) -> Result:
                 extra = [f"{spec['key']}: {spec['value']}"]
             else:
                 extra = [f"{spec['key']} = {toml_str(spec['value'])}"]
-        files, c = render(fmt, options, kinds, extra)
+        files, c = render(fmt, options, kinds, extra, case.get("override"))
         c.update(cli)
         out = load(files, c, case["cwd"])
         results[fmt] = out
